@@ -666,6 +666,8 @@ class Engine(ExprMixin):
         mods = self.modified_names(s.body)
         tnames = {n.id for n in ast.walk(s.target) if isinstance(n, ast.Name)}
         hook = self.loop_hooks.get(key)
+        if hook is not None and hasattr(hook, "pre_havoc"):
+            hook.pre_havoc(self, env)  # may replace e.g. a growing list by a ghost object that has sym_havoc
         for m_ in mods:
             if m_ in env and m_ not in tnames:
                 env[m_] = self.havoc_value(env[m_], m_)
